@@ -118,6 +118,13 @@ pub struct Event {
     pub salign: i64,       // alignment guaranteed by the sentinel's type
     pub follow: u8,        // 1 if this is a follow-up probe of the previous event
     pub clos: String,      // closure kind for try_with
+    pub closk: i64,        // 0 nothing, 1 keep(n), 2 release(n), 3 zero-sized
+    pub closn: i64,
+    pub okf: u8,           // try_with: 1 if the initialiser returns Ok
+    pub off: i64,          // try_with: offset of the value inside the reserved Result slot
+    pub ptr: i64,          // dealloc/grow/shrink: address of the block operated on
+    pub oalign: i64,       // dealloc/grow/shrink: its alignment (its size is `len`)
+    pub failat: i64,       // try_fill: index at which the initialiser fails, -1 never
     pub tag: String,
     pub msg: String,       // panic message, if any
 }
@@ -517,6 +524,9 @@ fn base_event(op: &str) -> Event {
         blk: -1,
         cbn: -1,
         errtok: -1,
+        ptr: -1,
+        oalign: -1,
+        failat: -1,
         init_ok: 1,
         prefix_ok: 1,
         zero_ok: 1,
@@ -854,6 +864,24 @@ fn do_try_with<const M: usize, T: Copy + 'static, E: Copy + 'static>(
     ev.len = std::mem::size_of::<T>() as i64;
     ev.cbn = 1;
     ev.clos = format!("{:?}", clos);
+    let (ck, cn) = match clos {
+        Clos::Nothing => (0, 0),
+        Clos::Keep(n) => (1, *n as i64),
+        Clos::Release(n) => (2, *n as i64),
+        Clos::Zst => (3, 0),
+    };
+    ev.closk = ck;
+    ev.closn = cn;
+    ev.okf = ok as u8;
+    ev.off = {
+        let probe: R<T, E> = Ok(mk::<T>(0));
+        let base = &probe as *const R<T, E> as usize;
+        let o = match &probe {
+            Ok(t) => t as *const T as usize - base,
+            Err(_) => 0,
+        };
+        o as i64
+    };
     ev.errtok = 0;
     let seed = next_seed();
     let v: T = mk(seed);
@@ -923,6 +951,7 @@ fn do_try_fill<const M: usize, T: Copy + 'static>(st: &mut St<M>, len: usize, fa
     ev.len = len as i64;
     let fails = fail_at >= 0 && (fail_at as usize) < len;
     ev.cbn = if fails { fail_at + 1 } else { len as i64 };
+    ev.failat = if fails { fail_at } else { -1 };
     ev.errtok = 0;
     let seed = next_seed();
     let mut expect = Vec::new();
@@ -1126,6 +1155,9 @@ fn step<const M: usize>(st: &mut St<M>, op: &Op) {
             ev.size = size as i64;
             ev.align = align as i64;
             ev.blk = id;
+            ev.ptr = to_v(ptr);
+            ev.len = size as i64;
+            ev.oalign = align as i64;
             st.call(ev, |b| {
                 let bump = match b.as_ref() {
                     Some(b) => b,
@@ -1154,6 +1186,8 @@ fn step<const M: usize>(st: &mut St<M>, op: &Op) {
             ev.align = nalign as i64;
             ev.len = osize as i64;
             ev.blk = id;
+            ev.ptr = to_v(ptr);
+            ev.oalign = oalign as i64;
             let zeroed = *zeroed;
             st.last_layout = Some((nsize, nalign));
             let old_shadow: Vec<u8> = SH.with(|s| s.borrow().live.iter().find(|x| x.id == id).map(|x| x.shadow.clone()).unwrap_or_default());
@@ -1226,6 +1260,8 @@ fn step<const M: usize>(st: &mut St<M>, op: &Op) {
             ev.align = nalign as i64;
             ev.len = osize as i64;
             ev.blk = id;
+            ev.ptr = to_v(ptr);
+            ev.oalign = oalign as i64;
             st.last_layout = Some((nsize, nalign));
             let old_shadow: Vec<u8> = SH.with(|s| s.borrow().live.iter().find(|x| x.id == id).map(|x| x.shadow.clone()).unwrap_or_default());
             let mut prefix_ok = true;
